@@ -106,12 +106,23 @@ def handleAnnounce (cfg : Config) (ops : StoreOps σ) (pre : List AnnHook) (st :
     List Nat × Except ErrClass (Ctx × AnnResp) :=
   runAnn (pre ++ [responseAnnounce ops st]) req 0 {} (initResp cfg req)
 
-/-- `Logic.AfterAnnounce`: post-hooks, then the swarm interaction (always last); a failing post-hook
-stops the chain. Returns the post-hook log and the new store state. -/
+/-- the post-hook phase (since the repair D28): every post-hook runs, in order; one that fails is logged and passed
+over — the context goes on as it was before it — and the chain continues. Returns the indices that ran and the
+context the built-in swarm interaction will see. -/
+def runPost (req : AnnReq) (resp : AnnResp) : List AnnHook → Nat → Ctx → List Nat × Ctx
+  | [], _, ctx => ([], ctx)
+  | h :: rest, i, ctx =>
+    let ctx' := match h ctx req resp with
+      | .ok (c, _) => c
+      | .error _ => ctx
+    let x := runPost req resp rest (i + 1) ctx'
+    (i :: x.1, x.2)
+
+/-- `Logic.AfterAnnounce`: post-hooks, then the swarm interaction (always last, always run). Returns the post-hook
+log and the new store state. -/
 def afterAnnounce (ops : StoreOps σ) (post : List AnnHook) (st : σ) (ctx : Ctx) (req : AnnReq) (resp : AnnResp) : List Nat × σ :=
-  match runAnn post req 0 ctx resp with
-  | (log, .error _) => (log, st)
-  | (log, .ok (ctx', _)) => (log ++ [post.length], swarmInteraction ops st ctx' req)
+  let x := runPost req resp post 0 ctx
+  (x.1 ++ [post.length], swarmInteraction ops st x.2 req)
 
 def handleScrape (ops : StoreOps σ) (pre : List ScrHook) (st : σ) (req : ScrapeReq) :
     List Nat × Except ErrClass (Ctx × ScrapeResp) :=
